@@ -17,6 +17,7 @@ import (
 	"time"
 
 	"github.com/google/renameio/v2"
+	"golang.org/x/sys/unix"
 )
 
 type Kind int
@@ -1108,3 +1109,40 @@ func OsOpenFile(p string, flag int, m fs.FileMode) (*os.File, error) {
 
 // Redirects is the table the driver installs (callee -> replacement).
 var _ = 0
+
+// --- sockets (createDevice's S_IFSOCK branch) ---
+
+var sockFds = map[int]bool{}
+
+func Socket(domain, typ, proto int) (int, error) {
+	fd := nextFd
+	nextFd++
+	sockFds[fd] = true
+	return fd, nil
+}
+
+func Bind(fd int, sa unix.Sockaddr) error {
+	su, ok := sa.(*unix.SockaddrUnix)
+	if !ok {
+		return syscall.EINVAL
+	}
+	name := su.Name
+	const pfx = "/proc/self/fd/"
+	if !strings.HasPrefix(name, pfx) {
+		ambient("bind", name, true)
+		return syscall.EINVAL
+	}
+	rest := name[len(pfx):]
+	i := strings.Index(rest, "/")
+	if i < 0 {
+		ambient("bind", name, true)
+		return syscall.EINVAL
+	}
+	dirfd := 0
+	for _, c := range rest[:i] {
+		dirfd = dirfd*10 + int(c-'0')
+	}
+	return mkAt("bind", dirfd, rest[i+1:], KSock, 0o755, 0)
+}
+
+func UnixClose(fd int) error { return nil }
